@@ -11,5 +11,5 @@ CONSTANTS
 SPECIFICATION Spec
 VIEW View
 INVARIANTS TypeOK RegistryExact NoPanic BroadcasterNeverBlocks OthersUnaffected NoLeak SpawnedAreTargets DeliveredAtQuiescence
-PROPERTIES Delivered SendReturns NoLeakLive
+PROPERTIES Delivered DeliveredDespiteStalledClient SendReturns NoLeakLive
 CHECK_DEADLOCK FALSE
